@@ -445,10 +445,14 @@ def apply_oracle(ctx, name, inp, fresh=None):
     except Exception as e:
         res = [('no_exception', False, 'a result', repr(e)[:300])]
     bad = 0
+    seen = ctx.extra.setdefault('_reported', {})
     for clause, ok, exp, obs in res:
         if not ok:
             bad += 1
-            ctx.violation(fname(name, inp), clause, dict(inp, oracle=name), exp, obs)
+            key = fname(name, inp) + '/' + clause
+            seen[key] = seen.get(key, 0) + 1
+            if seen[key] <= 3:                       # a few inputs per (function, clause); the rest is counted only
+                ctx.violation(fname(name, inp), clause, dict(inp, oracle=name), exp, obs)
     return bad, res
 
 
@@ -699,6 +703,7 @@ def run(ctx):
         if len(ctx.samples) < 6 and inp['family'] in ('speckle', 'wmse') and bad == 0:
             ctx.sample({'input': inp, 'clauses': [(r[0], r[1]) for r in res]})
     ctx.extra['oracle_calls'] = n_or
+    ctx.extra['failing_clause_counts'] = ctx.extra.pop('_reported', {})
 
 
 def search(ctx):
